@@ -237,3 +237,161 @@ def _graph_ob(gname):
 
 for _g in GRAPHS:
     _graph_ob(_g)
+
+
+# ---------------------------------------------------------------------------------------
+# O2: node constructors derive both directions of each relation from the (real, correlated) entity tree
+# ---------------------------------------------------------------------------------------
+from fv import choice as _choice, parserh as _parserh  # noqa: E402
+from fv.choice import CV as _CV  # noqa: E402
+
+CALL_OPTS = [("continue", None), ("call sa()", "sa"), ("call sb()", "sb"), ("call sc()", "sc"), ("CALL SB", "sb")]
+USE_OPTS = [("implicit none", None), ("use m1", "m1"), ("use m2", "m2"), ("USE M3", "m3")]
+EXT_OPTS = [("type :: {n}", None), ("type, extends(ta) :: {n}", "ta"), ("type, extends(tb) :: {n}", "tb"), ("TYPE, EXTENDS(TA) :: {n}", "ta")]
+COMP_OPTS = [("integer :: c", None), ("type(ta) :: c", "ta"), ("type(tb), pointer :: c", "tb"), ("class(tc), allocatable :: c", "tc")]
+GSET = dict(proc_internals=True, display=["public", "private", "protected"])
+
+
+def _rel_files(calls, uses, exts, comps):
+    return {
+        "a.f90": ["module m1", uses[0], "contains", "subroutine sa()", calls[0], "end subroutine sa", "end module m1"],
+        "b.f90": ["module m2", uses[1], "contains", "subroutine sb()", calls[1], "end subroutine sb", "end module m2"],
+        "c.f90": ["module m3", uses[2], "contains", "subroutine sc()", calls[2], "end subroutine sc", "end module m3"],
+        "t.f90": ["module mt", "type :: ta", "integer :: x", "end type ta", exts[0], comps[0], "end type tb",
+                  exts[1], comps[1], "end type tc", "end module mt"],
+    }
+
+
+def _build_nodes(p):
+    import ford.graphs as gr
+
+    gd = gr.GraphData("", False, False)
+    ents = list(p.modules) + list(p.procedures) + list(p.types)
+    for e in ents:
+        gd.register(e)
+    return gd
+
+
+def _names(nodes):
+    return sorted(str(n.name).lower() for n in nodes)
+
+
+def _observe_rel(p):
+    gd = _build_nodes(p)
+    procs = {str(o.name).lower(): n for o, n in gd.procedures.items()}
+    mods = {str(o.name).lower(): n for o, n in gd.modules.items()}
+    types = {str(o.name).lower(): n for o, n in gd.types.items()}
+    out = {}
+    for k in ("sa", "sb", "sc"):
+        out[f"calls({k})"] = _names(procs[k].calls)
+        out[f"called_by({k})"] = _names(procs[k].called_by)
+    for k in ("m1", "m2", "m3"):
+        out[f"uses({k})"] = _names(mods[k].uses)
+        out[f"used_by({k})"] = _names(mods[k].used_by)
+    for k in ("ta", "tb", "tc"):
+        out[f"ancestor({k})"] = str(types[k].ancestor.name).lower() if types[k].ancestor else None
+        out[f"children({k})"] = _names(types[k].children)
+        out[f"comp_types({k})"] = _names(types[k].comp_types.keys())
+        out[f"comp_of({k})"] = _names(types[k].comp_of.keys())
+    return out
+
+
+def rel_rule(calls, uses, exts, comps):
+    """both directions of each relation, from the declared statements"""
+    out = {}
+    cs = dict(zip(("sa", "sb", "sc"), calls))
+    us = dict(zip(("m1", "m2", "m3"), uses))
+    ex = {"ta": None, "tb": exts[0], "tc": exts[1]}
+    # a procedure of module mK is only visible from another module through USE: sX lives in mX
+    home = {"sa": "m1", "sb": "m2", "sc": "m3"}
+    def callee(caller, c):
+        if c is None:
+            return None
+        if c == caller:
+            return c
+        return c if us[home[caller]] == home[c] else None
+    for k in cs:
+        t = callee(k, cs[k])
+        out[f"calls({k})"] = [t] if t else []
+    for k in cs:
+        out[f"called_by({k})"] = sorted(x for x in cs if callee(x, cs[x]) == k)
+    for k in us:
+        u = us[k]
+        out[f"uses({k})"] = [u] if u and u != k else ([u] if u == k else [])
+        out[f"used_by({k})"] = sorted(x for x in us if us[x] == k)
+    co = {"ta": None, "tb": comps[0], "tc": comps[1]}
+    for k in ex:
+        out[f"ancestor({k})"] = ex[k]
+        out[f"children({k})"] = sorted(x for x in ex if ex[x] == k)
+        out[f"comp_types({k})"] = [co[k]] if co[k] else []
+        out[f"comp_of({k})"] = sorted(x for x in co if co[x] == k)
+    return out
+
+
+def replay_rel(w):
+    import io, contextlib
+    with contextlib.redirect_stdout(io.StringIO()), contextlib.redirect_stderr(io.StringIO()):
+        p = _parserh.project_concrete(_rel_files(*w["slots"]), **GSET)
+        got = _observe_rel(p)
+    diff = {k: (got[k], w["expected"][k]) for k in got if got[k] != w["expected"][k]}
+    return bool(diff), {"files": _rel_files(*w["slots"]), "differences (ford, declared)": diff}
+
+
+@obligation("C13", "O2.node-constructors-both-directions", engine="SX(CV)", timeout=3000)
+def constructors(ctx):
+    """graph nodes built by the real constructors from a symbolic project: calls/called_by, uses/used_by, ancestor/children and
+    comp_types/comp_of are exactly the declared relation and its inverse"""
+    import io, contextlib
+    import ford.graphs as gr
+
+    for c in (gr.ModNode, gr.ProcNode, gr.TypeNode):
+        ctx.encode_fn(c.__init__, c.__name__ + ".__init__")
+    ctx.encode_fn(gr.get_call_nodes)
+    ctx.encode_fn(gr.GraphData.register)
+    quick = not ctx.thorough
+    ctx.bounds.update({"call options": len(CALL_OPTS), "use options": len(USE_OPTS), "extends options": len(EXT_OPTS), "component options": len(COMP_OPTS)})
+
+    def h(E):
+        calls = [_CV.choice(E, f"call{i}", CALL_OPTS[:4] if quick else CALL_OPTS) for i in range(3)]
+        uses = [_CV.choice(E, f"use{i}", USE_OPTS[:3] if quick and i else USE_OPTS) for i in range(3)]
+        exts = [_CV.choice(E, f"ext{i}", [(t.replace("{n}", nm), m_) for t, m_ in (EXT_OPTS[:3] if quick else EXT_OPTS)]) for i, nm in enumerate(("tb", "tc"))]
+        comps = [_CV.choice(E, f"comp{i}", COMP_OPTS[:3] if quick else COMP_OPTS) for i in range(2)]
+        # module USE relations are acyclic in valid Fortran
+        def acyclic(a, b, c):
+            us = {"m1": a, "m2": b, "m3": c}
+            for start in us:
+                seen_, cur = set(), start
+                while cur is not None and cur not in seen_:
+                    seen_.add(cur)
+                    cur = us.get(cur)
+                if cur is not None:
+                    return False
+            return True
+        E.assume(_choice.apply(acyclic, uses[0][1], uses[1][1], uses[2][1]))
+        # tb cannot extend itself; no extension cycle
+        E.assume(_choice.apply(lambda a, b: a != "tb" and not (a == "tc"), exts[0][1], exts[1][1]))
+        E.e.snapshot = lambda m: {"slots": [[_choice.value_in_model(m, x)[0] for x in grp] for grp in (calls, uses, exts, comps)],
+                                  "expected": _choice.value_in_model(m, h.want)}
+        h.want = _choice.apply(lambda *v: rel_rule(v[0:3], v[3:6], v[6:8], v[8:10]), *[x[1] for x in calls + uses + exts + comps])
+        with contextlib.redirect_stdout(io.StringIO()), contextlib.redirect_stderr(io.StringIO()):
+            p = _parserh.project(_rel_files([x[0] for x in calls], [x[0] for x in uses], [x[0] for x in exts], [x[0] for x in comps]), **GSET)
+            from fv import patch as _patch
+            with _patch.patched(gr, extra=_parserh.helper_patches()):
+                got = _observe_rel(p)
+        E.reachable("built")
+        for k in sorted(got):
+            E.require(_choice.apply(lambda g, w_, k=k: g == w_[k], got[k], h.want), f"{k}: differs from the declared relation")
+
+    E = sym.Engine(ctx, max_paths=300000, incremental=True)
+    found = E.explore(h)
+    seen = set()
+    for (label, m, pc), snap in zip(found, E.snapshots):
+        if label in seen:
+            continue
+        seen.add(label)
+        ctx.report(label, snap, replay_rel)
+    if E.reached.get("built"):
+        ctx.twins += 1
+    else:
+        ctx.inconclusive.append("vacuity: no graph data built")
+    ctx.sample({"paths": E.paths})
